@@ -7,6 +7,8 @@ use std::fs::File;
 use vstd::std_specs::iter::IteratorSpec;
 use vstd::std_specs::ops::{AddSpec, SubSpec};
 use vstd::std_specs::cmp::PartialOrdSpec;
+use vstd::std_specs::fmt::DisplaySpec;
+use vstd::std_specs::core::IndexSpec;
 use crate::packet::{Packet, TransferOption, OptionType, ErrorCode, Opcode};
 
 verus! {
@@ -52,6 +54,93 @@ pub struct ExInstant(std::time::Instant);
 #[verifier::external_body]
 #[verifier::reject_recursive_types(T)]
 pub struct ExJoinHandle<T>(std::thread::JoinHandle<T>);
+
+#[verifier::external_type_specification]
+#[verifier::external_body]
+pub struct ExMetadata(std::fs::Metadata);
+
+#[verifier::external_type_specification]
+#[verifier::external_body]
+pub struct ExIpAddr(std::net::IpAddr);
+
+#[verifier::external_type_specification]
+#[verifier::external_body]
+pub struct ExPathDisplay<'a>(std::path::Display<'a>);
+
+#[verifier::external_type_specification]
+#[verifier::external_body]
+#[verifier::reject_recursive_types(T)]
+pub struct ExSender<T>(std::sync::mpsc::Sender<T>);
+
+#[verifier::external_type_specification]
+#[verifier::external_body]
+#[verifier::reject_recursive_types(T)]
+pub struct ExSendError<T>(std::sync::mpsc::SendError<T>);
+
+// ---- paths and the file system (uninterpreted: the lexical meaning of std::path is ASSUMED) -------
+/// the text of a path
+pub uninterp spec fn path_str(p: &std::path::Path) -> Seq<char>;
+pub uninterp spec fn pathbuf_str(p: std::path::PathBuf) -> Seq<char>;
+/// text of anything that can be viewed as a path (`AsRef<Path>`); given a meaning for PathBuf by the axiom below
+pub uninterp spec fn asref_path_str<P>(p: P) -> Seq<char>;
+pub broadcast axiom fn axiom_asref_pathbuf(p: std::path::PathBuf)
+    ensures #[trigger] asref_path_str::<std::path::PathBuf>(p) == pathbuf_str(p);
+/// `base.join(rel)` on path texts
+pub uninterp spec fn join_str(base: Seq<char>, rel: Seq<char>) -> Seq<char>;
+/// a file exists at this path / its length
+pub uninterp spec fn fs_exists(p: Seq<char>) -> bool;
+pub uninterp spec fn fs_len(p: Seq<char>) -> u64;
+/// SPECIFICATION of lexical confinement (C03): `file` contains no `..` component and `dir` is among its ancestors
+pub uninterp spec fn path_confined(file: Seq<char>, dir: Seq<char>) -> bool;
+
+pub assume_specification[ <std::path::PathBuf as core::ops::Deref>::deref ](p: &std::path::PathBuf) -> (r: &std::path::Path)
+    ensures path_str(r) == pathbuf_str(*p);
+
+pub assume_specification[ <std::path::PathBuf as Clone>::clone ](p: &std::path::PathBuf) -> (r: std::path::PathBuf)
+    ensures r == *p;
+
+pub assume_specification<P: core::convert::AsRef<std::path::Path>>[ std::path::Path::join::<P> ](base: &std::path::Path, rel: P) -> (r: std::path::PathBuf)
+    ensures pathbuf_str(r) == join_str(path_str(base), asref_path_str(rel));
+
+pub assume_specification[ std::path::Path::exists ](p: &std::path::Path) -> (r: bool)
+    ensures r == fs_exists(path_str(p));
+
+pub assume_specification[ std::path::Path::metadata ](p: &std::path::Path) -> (r: Result<std::fs::Metadata, std::io::Error>);
+
+pub assume_specification[ std::fs::Metadata::len ](m: &std::fs::Metadata) -> (r: u64);
+
+pub assume_specification<'a>[ std::path::Path::display ](p: &'a std::path::Path) -> (r: std::path::Display<'a>);
+
+/// ASSUMPTION: the `Display` implementations of these std types have no precondition (do not panic)
+pub broadcast axiom fn axiom_display_socketaddr(x: &std::net::SocketAddr, f: &core::fmt::Formatter<'_>)
+    ensures #[trigger] x.fmt_req(f);
+pub broadcast axiom fn axiom_display_path(x: &std::path::Display<'_>, f: &core::fmt::Formatter<'_>)
+    ensures #[trigger] x.fmt_req(f);
+pub broadcast axiom fn axiom_display_boxed_error(x: &Box<dyn std::error::Error>, f: &core::fmt::Formatter<'_>)
+    ensures #[trigger] x.fmt_req(f);
+
+/// ASSUMPTION: `SocketAddr` hashes and compares consistently (needed for vstd's HashMap specification)
+pub broadcast axiom fn axiom_socketaddr_key_model()
+    ensures #[trigger] vstd::std_specs::hash::obeys_key_model::<std::net::SocketAddr>();
+
+/// ASSUMPTION: indexing a HashMap with a key it contains does not panic
+pub broadcast axiom fn axiom_hashmap_index<V>(m: &std::collections::HashMap<std::net::SocketAddr, V>, k: &std::net::SocketAddr)
+    ensures m@.contains_key(*k) ==> #[trigger] m.index_req(&k);
+
+/// ASSUMPTION: `max` on integers.  Stated for all `Ord` types through an uninterpreted function that the
+/// axiom below defines for `usize` (the only instantiation in the crate).
+pub uninterp spec fn max_spec<T>(a: T, b: T) -> T;
+pub broadcast axiom fn axiom_max_usize(a: usize, b: usize)
+    ensures #[trigger] max_spec::<usize>(a, b) == (if a >= b { a } else { b });
+pub assume_specification<T: core::cmp::Ord + core::marker::Destruct>[ core::cmp::max ](a: T, b: T) -> (r: T)
+    ensures r == max_spec(a, b);
+
+pub assume_specification[ std::time::Duration::from_secs ](s: u64) -> (d: std::time::Duration)
+    ensures dur_nanos(d) == s * 1000000000;
+
+pub assume_specification[ std::net::UdpSocket::local_addr ](s: &std::net::UdpSocket) -> (r: Result<std::net::SocketAddr, std::io::Error>);
+
+pub assume_specification<T>[ std::sync::mpsc::Sender::<T>::send ](s: &std::sync::mpsc::Sender<T>, t: T) -> (r: Result<(), std::sync::mpsc::SendError<T>>);
 
 /// File model.  `file_data` is the content, `file_pos` the cursor of this handle.
 pub uninterp spec fn file_data(f: File) -> Seq<u8>;
@@ -220,6 +309,16 @@ pub broadcast axiom fn axiom_file_write_all(pre: File, post: File, buf: Seq<u8>,
     ensures
         ok ==> file_data(post) == file_data(pre) + buf,
         !ok ==> appended_prefix(file_data(post), file_data(pre), buf);
+
+/// ASSUMPTION: iterating `&mut [T]` yields one mutable reference per element, in order (mirrors vstd's `iter_mut()`)
+pub assume_specification<'a, T>[ <&'a mut [T] as core::iter::IntoIterator>::into_iter ](s: &'a mut [T]) -> (r: core::slice::IterMut<'a, T>)
+    ensures
+        r.obeys_prophetic_iter_laws(),
+        r.decrease() is Some,
+        r.remaining().len() == old(s)@.len(),
+        final(s)@.len() == old(s)@.len(),
+        forall|i: int| 0 <= i < old(s)@.len() ==> *(#[trigger] r.remaining()[i]) == old(s)@[i],
+        forall|i: int| 0 <= i < old(s)@.len() ==> *final(#[trigger] r.remaining()[i]) == final(s)@[i];
 
 /// ASSUMPTION: iterating `&VecDeque` yields references to its elements in order (mirrors vstd's spec of `iter()`).
 pub assume_specification<'a, T, A: core::alloc::Allocator>[ <&'a VecDeque<T, A> as core::iter::IntoIterator>::into_iter ](v: &'a VecDeque<T, A>) -> (r: std::collections::vec_deque::Iter<'a, T>)
